@@ -162,8 +162,9 @@ def make_corpus(ctx, tree, exprs):
     gen = [("layout/%d" % n, layout_file(n)) for n in range(40 if q else 400)]
     gen += [("expr/%d" % j, t) for j, t in enumerate(exprs)]
     gen += seed_files(ctx, 1 if q else 24)
-    if q:
-        gen = vt.subsample(gen, ctx.seed, max(1, len(gen) // 230))
+    if q:         # every seed program; a VERIF_SEED-selected half of the layout programs and of the token edits
+        keep = [g for g in gen if g[0].startswith("seed/")]
+        gen = keep + vt.subsample([g for g in gen if not g[0].startswith("seed/")], ctx.seed, 2)
     for name, text in gen:
         p = "%s/%s.c" % (d, re.sub(r"[^A-Za-z0-9_.~-]", "_", name))
         open(p, "w").write(text)
